@@ -50,11 +50,11 @@ func projects() []*project {
 			Files:     readTree(filepath.Join(td, "input")),
 			StartDirs: [3]string{".", "ext", "graph/model"}},
 		{Name: "fed", Quick: true,
-			About:     "federation v2 with explicit_requires: single/multi/nested keys, multi resolvers, @requires on generated and hand-bound entities (two model packages), entity interface, follow-schema resolvers",
+			About:     "federation v2 with explicit_requires: single/multi/nested keys, multi resolvers, @requires on generated and hand-bound entities (two model packages), entity interface, follow-schema resolvers; object / enum / input type names that collide after Go-name conversion (user_profile~UserProfile, HTTP_status~HttpStatus, sort_order~SortOrder, page_args~PageArgs) each referenced from fields of other types; the bound hand-written packages reuse bound names in inner scopes (function-local types/vars/consts, parameters, results, method and struct field names); object types MUTATION / QUERY next to the roots Mutation / Query (no schema{} block)",
 			Files:     readTree(filepath.Join(td, "fed")),
 			StartDirs: [3]string{".", "graph", "graph/model"}},
 		{Name: "samebase", Quick: true,
-			About:     "follow-schema exec where two schema files in different directories share the base name common.graphql and contribute only interfaces/unions/enums/directives",
+			About:     "follow-schema exec where two schema files in different directories share the base name common.graphql and contribute only interfaces/unions/enums/directives; explicit schema{} block plus object types MUTATION / QUERY that differ from the root types only in case",
 			Files:     readTree(filepath.Join(td, "samebase")),
 			StartDirs: [3]string{".", "schema", "schema/core"}},
 		{Name: "fedcomp", Quick: false,
